@@ -169,3 +169,43 @@ func VerifH_C07_Maintenance() {
 	}
 	vCover("maintained")
 }
+
+// VerifH_C05_IndexFaults — C05.O1 for index maintenance: a store operation that fails inside Save / Update / Delete of
+// an index makes the call return an error (a swallowed error would let the surrounding mutation commit a stale or
+// missing index entry). conf: unique (0/1), op (0 save, 1 update, 2 delete), window
+func VerifH_C05_IndexFaults() {
+	unique := vConfInt("unique") != 0
+	e := vNewEnv(vFieldCounter, true)
+	def := mSchema(1)
+	col := &collection{db: &DB{}, def: def}
+	desc := client.IndexDescription{Name: "idx", ID: 1, Unique: unique, Fields: []client.IndexedFieldDescription{{Name: "f0"}}}
+	index, err := NewCollectionIndex(col, desc)
+	vBound(err == nil, "index-created")
+	if err != nil {
+		return
+	}
+	// another live document, so that the unique check has something to look at
+	other := mDoc(def, 1, []uVal{{i: 1}})
+	vBound(index.Save(e.ctx, other) == nil, "setup-other")
+	old := mDoc(def, 0, []uVal{{i: 2}})
+	op := vConfInt("op")
+	if op != 0 {
+		vBound(index.Save(e.ctx, old) == nil, "setup-old")
+	}
+	f := &vFaults{window: vConfInt("window"), max: 1}
+	e.txn.data.faults = f
+	switch op {
+	case 0:
+		err = index.Save(e.ctx, old)
+	case 1:
+		err = index.Update(e.ctx, old, mDoc(def, 0, mVals("n", 1)))
+	default:
+		err = index.Delete(e.ctx, old)
+	}
+	e.txn.data.faults = nil
+	vCover("ran")
+	vBound(f.count <= f.window, "window-covers-all-store-operations")
+	if f.injected > 0 {
+		vAssert(err != nil, "fault-propagates")
+	}
+}
